@@ -48,3 +48,8 @@ Definition run_show (x:sx) : sx :=
 From Phil Require Import ShowProofs.
 Definition run_wfshow (x:sx) : sx :=
   match objs_of_sx x with Some l => sx_bool (forallb wf_show l) | None => sx_bad end.
+
+(* the hypothesis of C01_tree_level0 / C01_text_fixpoint_level0, evaluated on a tree sent by the harness *)
+From Phil Require Import WordsRoundtrip TreeRoundtrip.
+Definition run_dtreeok (x:sx) : sx :=
+  match objs_of_sx x with Some l => sx_bool (forallb (dtree_ok []) l) | None => sx_bad end.
